@@ -21,7 +21,7 @@ impl V7 {
 //@   rules: R1
 //@   ensures: out@ == v7_packet_enc(*self)
 //@   forloop 0: it | invariant flows@ == v7_records_enc(self.flowsets@.take(it.index@ as int)), it.index@ <= self.flowsets@.len()
-//@   before "let mut flows = vec![];": proof {
+//@   beforefor 0: proof {
 //@       lemma_v7_header_enc_append(Seq::<u8>::empty(), self.header);
 //@       assert(result@ =~= v7_header_enc(self.header));
 //@   }
